@@ -65,3 +65,4 @@ CFG = dict(
          dict(target="FuzzUppercase", seconds=15),
      ])
 CFG["rule"] += ' Added after independently written breaking changes: Values are also decorated with white space (a decoder that validates a value and then hands it to a library that trims it sees two strings); MAC lines of every base64 length.'
+CFG["rule"] += ' Key inputs are also wrapped in (or replaced by) what files and transports put around a key: byte order marks, white space, line ends, NULs (rapid + TestParseKeyWrappers, enumerated).'
